@@ -241,7 +241,7 @@ def _exit_forms():
 
 _ERROR_ROUTES = [
     "eval('(')", "eval('[' + Array(400).join('0,') + '0]')", "new Function('(')", "new Function('return [' + Array(400).join('0,') + '0]')()", "eval('throw 1')", "eval('null.x')",
-    "eval('undefinedName')", "eval(Array(3000).join('(') + '1')", "eval('function f(){' + Array(400).join('var a' + 'b; ') + '}')", "new RegExp('(')", "JSON.parse('{')", "'a'.repeat(-1)",
+    "eval('undefinedName')", "eval(Array(3000).join('(') + '1')", "eval('function f(){' + Array(300).join('x').split('').map(function (_, i) { return 'var v' + i + ' = ' + i + ';' }).join('') + '} f()')", "new RegExp('(')", "JSON.parse('{')", "'a'.repeat(-1)",
     "new Array(-1)", "null.x", "undefinedName", "(1)()", "new (function(){}).call()", "[].reduce(function(){})", "var o = {}; Object.defineProperty(o, 'x', {get: function(){ return eval('(') }, enumerable: true}); Object.values(o)",
     "[1].map(function(){ return eval('[' + Array(400).join('0,') + '0]') })", "'a'.replace(/a/, function(){ return new Function('(') })",
 ]
